@@ -21,3 +21,369 @@ Theorem c05_handle_is_offset :
 Proof. intros T _. exact (handle_offset_from_ctor T). Qed.
 
 Print Assumptions c05_handle_is_offset.
+
+(* ==========================================================================================================================
+   The four handle tables (PPTT RHCT RIMT VIOT): handles and reference fields against the WALK of the emitted image.
+   Part A: the Spec REFERENCE image.  Part B: the image of the Impl model (both build modes), through the refinement theorems
+   of Props/C04.v.  A history is a list of operations; (104 k) in an operation = "the handle returned by operation k".
+   ========================================================================================================================== *)
+From Coq Require Import Bool Arith.
+From ACPI Require Import Impl.Pptt Impl.Rhct Impl.Rimt Impl.Viot
+  Spec.Layout Spec.MadtS Spec.HmatS Spec.PpttS Spec.RhctS Spec.RimtS Spec.ViotS
+  Proofs.WalkP Proofs.WalkRefCommon2P Proofs.RefFieldCommonP
+  Proofs.PpttWalkRefP Proofs.RhctWalkRefP Proofs.RimtWalkRefP Proofs.ViotWalkRefP Proofs.HandleFieldsP Proofs.HandleModelP.
+
+(* ---------------------------------------------------------------------------------------------------------------------------
+   A.1  PPTT, reference image (the other three tables had these in Proofs/<T>WalkRefP.v; all four are pinned here).
+   [pptt_placed pre] is the Spec's bookkeeping after the operations [pre] -- (type, start) of every node, most recent first,
+   and their number --, i.e. what the NEXT operation's references are resolved in by [resolve p ty (104 k)] (ty 0: processor
+   node, ty 1: cache node). *)
+Theorem c05_pptt_reference_tiles :
+  forall ctor ops r, ts_image pptt_spec ctor ops = Some r -> c03_judge pptt_spec ctor r ops = true.
+Proof. exact pptt_reference_tiles. Qed.
+
+Theorem c05_pptt_reference_handles :
+  forall ctor pre post r,
+    ts_image pptt_spec ctor (pre ++ post) = Some r ->
+    exists p found,
+      pptt_placed pre = Some p /\ snd p = N.of_nat (length pre) /\
+      walk (S (length r)) H_u8_u8 36 (skipn 36 r) = Some found /\
+      length found = length (pre ++ post) /\
+      (forall k ty off, resolve p ty (SL [SA 104; SA k]) = Some off ->
+         exists o len, nth_error found (N.to_nat k) = Some (ty, o, len) /\ N.of_nat o = off) /\
+      (forall k, (k < length pre)%nat ->
+         exists ty o len, nth_error found k = Some (ty, o, len) /\
+                          resolve p ty (SL [SA 104; SA (N.of_nat k)]) = Some (N.of_nat o)).
+Proof. exact pptt_reference_handles. Qed.
+
+Theorem c05_pptt_reference_handles_ok :
+  forall ctor ops r p pending,
+    ts_image pptt_spec ctor ops = Some r -> pptt_placed ops = Some p ->
+    (forall hk, In hk pending -> exists ty, resolve p ty (SL [SA 104; SA (N.of_nat (snd hk))]) = Some (fst hk)) ->
+    c05_handles_ok pptt_spec r pending = true.
+Proof. exact pptt_reference_handles_ok. Qed.
+
+Theorem c05_rhct_reference_handles :
+  forall ctor pre post r,
+    ts_image rhct_spec ctor (pre ++ post) = Some r ->
+    exists p found,
+      rhct_placed pre = Some p /\ snd p = N.of_nat (length pre) /\
+      walk (S (length r)) H_u16_u16 56 (skipn 56 r) = Some found /\
+      length found = length (pre ++ post) /\
+      (forall k ty off, resolve p ty (SL [SA 104; SA k]) = Some off ->
+         exists o len, nth_error found (N.to_nat k) = Some (ty, o, len) /\ N.of_nat o = off) /\
+      (forall k, (k < length pre)%nat ->
+         exists ty o len, nth_error found k = Some (ty, o, len) /\
+                          resolve p ty (SL [SA 104; SA (N.of_nat k)]) = Some (N.of_nat o)).
+Proof. exact rhct_reference_handles. Qed.
+
+Theorem c05_rimt_reference_handles :
+  forall ctor pre post r,
+    ts_image rimt_spec ctor (pre ++ post) = Some r ->
+    exists n rs found,
+      sp_final rimt_entry_ref pre 48 0 [] = Some (n, rs) /\ n = length pre /\
+      walk (S (length r)) H_u8_x_u16 48 (skipn 48 r) = Some found /\
+      length found = length (pre ++ post) /\
+      (forall k o ty, sp_lookup n rs (SL [SA 104; SA k]) = Some (o, ty) ->
+         exists off len, nth_error found (N.to_nat k) = Some (ty, off, len) /\ N.of_nat off = o) /\
+      (forall k, (k < length pre)%nat ->
+         exists ty off len, nth_error found k = Some (ty, off, len) /\
+                            sp_lookup n rs (SL [SA 104; SA (N.of_nat k)]) = Some (N.of_nat off, ty)).
+Proof. exact rimt_reference_handles. Qed.
+
+Theorem c05_viot_reference_handles :
+  forall ctor pre post r,
+    ts_image viot_spec ctor (pre ++ post) = Some r ->
+    exists n rs found,
+      sp_final viot_entry_ref pre 48 0 [] = Some (n, rs) /\ n = length pre /\
+      walk (S (length r)) H_u8_x_u16 48 (skipn 48 r) = Some found /\
+      length found = length (pre ++ post) /\
+      (forall k o ty, sp_lookup n rs (SL [SA 104; SA k]) = Some (o, ty) ->
+         exists off len, nth_error found (N.to_nat k) = Some (ty, off, len) /\ N.of_nat off = o) /\
+      (forall k, (k < length pre)%nat ->
+         exists ty off len, nth_error found k = Some (ty, off, len) /\
+                            sp_lookup n rs (SL [SA 104; SA (N.of_nat k)]) = Some (N.of_nat off, ty)).
+Proof. exact viot_reference_handles. Qed.
+
+(* ---------------------------------------------------------------------------------------------------------------------------
+   A.2  Reference fields hold the referenced node's offset, verbatim.
+   [c05_names found npre x ty v]: the reference x, written when npre operations had been applied, is (104 k) with k < npre,
+   the walk's k-th entry is a node of type ty, and v is the offset of that node.
+   [c05_<t>_refs img pre o]: o is the operation applied after [pre]; the walk over img finds o's node as entry number |pre|
+   at offset [start], and every reference field of that node, decoded with [field_at img (start + field offset) width],
+   names the node it refers to.  The argument selectors (pptt_last_parent: the last assignment of the parent, constructor
+   argument then builders (8 x); pptt_resource_args: the add_cache builders (6 h) in order; pptt_last_next: the last
+   next_level setter (9 h); rimt_map_args: mapping-array offset inside the device and the ID mappings; rimt_map_href: the
+   IOMMU argument of a mapping; viot_out_arg: the output-node argument of an endpoint) are in Proofs/HandleFieldsP.v. *)
+Definition c05_names (found : list (N * nat * nat)) (npre : nat) (x : sx) (ty : N) (v : N) : Prop :=
+  exists k off klen, x = SL [SA 104; SA k] /\ (N.to_nat k < npre)%nat /\
+    nth_error found (N.to_nat k) = Some (ty, off, klen) /\ v = N.of_nat off.
+
+Definition c05_pptt_refs (img : list N) (pre : list sx) (o : sx) : Prop :=
+  exists found ty start len,
+    walk (S (length img)) H_u8_u8 36 (skipn 36 img) = Some found /\
+    nth_error found (length pre) = Some (ty, start, len) /\
+    (* Processor Hierarchy Node: +8 Parent (a processor node), +20 + 4 j private resource j (a cache node) *)
+    (forall parent uid bs, o = SL [SA 1; parent; SA uid; SL bs] ->
+       ty = 0 /\ len = (20 + 4 * length (pptt_resource_args bs))%nat /\
+       (forall k, pptt_last_parent bs parent = SL [SA 104; SA k] ->
+          c05_names found (length pre) (SL [SA 104; SA k]) 0 (field_at img (start + 8) 4)) /\
+       (forall j x, nth_error (pptt_resource_args bs) j = Some x ->
+          c05_names found (length pre) x 1 (field_at img (start + 20 + 4 * j) 4))) /\
+    (* Cache Type Structure: +8 Next Level of Cache (a cache node) *)
+    (forall st, o = SL [SA 2; SL st] ->
+       ty = 1 /\ len = 28%nat /\
+       (forall x, pptt_last_next st None = Some x ->
+          c05_names found (length pre) x 1 (field_at img (start + 8) 4))).
+
+Definition c05_rhct_refs (img : list N) (pre : list sx) (o : sx) : Prop :=
+  (* hart info node (type 65535): +12 + 4 j offset j; the first names an ISA string node (0), the others CMO nodes (1) *)
+  forall uid isa cmos, o = SL [SA 4; SA uid; isa; SL cmos] ->
+  exists found start,
+    walk (S (length img)) H_u16_u16 56 (skipn 56 img) = Some found /\
+    nth_error found (length pre) = Some (65535, start, (12 + 4 * S (length cmos))%nat) /\
+    forall j x, nth_error (isa :: cmos) j = Some x ->
+      c05_names found (length pre) x (if Nat.eqb j 0 then 0 else 1) (field_at img (start + 12 + 4 * j) 4).
+
+Definition c05_rimt_refs (img : list N) (pre : list sx) (o : sx) : Prop :=
+  (* PCIe root complex / platform device: ID mapping j at +base + 20 j, its Destination IOMMU Offset at +12 (an IOMMU, 0) *)
+  forall base ms, rimt_map_args o = Some (base, ms) ->
+  exists found ty start,
+    walk (S (length img)) H_u8_x_u16 48 (skipn 48 img) = Some found /\
+    nth_error found (length pre) = Some (ty, start, (base + 20 * length ms)%nat) /\
+    forall j m, nth_error ms j = Some m ->
+      exists x, rimt_map_href m = Some x /\
+        c05_names found (length pre) x 0 (field_at img (start + base + 20 * j + 12) 4).
+
+Definition c05_viot_refs (img : list N) (pre : list sx) (o : sx) : Prop :=
+  (* PCI range (1) / MMIO endpoint (2): +16 Output Node, 16 bits (a translation node: 3 or 4) *)
+  forall x, viot_out_arg o = Some x ->
+  exists found ty start kty,
+    walk (S (length img)) H_u8_x_u16 48 (skipn 48 img) = Some found /\
+    nth_error found (length pre) = Some (ty, start, 24%nat) /\ (ty = 1 \/ ty = 2) /\
+    (kty = 3 \/ kty = 4) /\
+    c05_names found (length pre) x kty (field_at img (start + 16) 2).
+
+Theorem c05_pptt_reference_fields :
+  forall ctor pre o post r,
+    ts_image pptt_spec ctor (pre ++ o :: post) = Some r -> N.of_nat (length r) < 2 ^ 32 -> c05_pptt_refs r pre o.
+Proof. exact pptt_reference_fields. Qed.
+
+Theorem c05_rhct_reference_fields :
+  forall ctor pre o post r,
+    ts_image rhct_spec ctor (pre ++ o :: post) = Some r -> N.of_nat (length r) < 2 ^ 32 -> c05_rhct_refs r pre o.
+Proof. exact rhct_reference_fields. Qed.
+
+Theorem c05_rimt_reference_fields :
+  forall ctor pre o post r,
+    ts_image rimt_spec ctor (pre ++ o :: post) = Some r -> N.of_nat (length r) < 2 ^ 32 -> c05_rimt_refs r pre o.
+Proof. exact rimt_reference_fields. Qed.
+
+(* the VIOT Spec bounds the table by 2^16 (16-bit node offsets): no size hypothesis *)
+Theorem c05_viot_reference_fields :
+  forall ctor pre o post r,
+    ts_image viot_spec ctor (pre ++ o :: post) = Some r -> c05_viot_refs r pre o.
+Proof. exact viot_reference_fields. Qed.
+
+(* ---------------------------------------------------------------------------------------------------------------------------
+   B.  The Impl model, both build modes, every in-domain history pre ++ o :: post:
+   (handles) the model accepts; the one number h it reports for o is, when the API returns a handle for o
+   ([ts_returns]: every PPTT add; RHCT add_isa_string / add_cmo; RIMT add_iommu; VIOT the two IOMMU adds), the offset at which
+   the walk over the image of the WHOLE history finds the node added by o (entry number |pre|), whatever is added before or
+   after; it is 0 when the API returns nothing.
+   (fields) in that image the reference fields of o's node hold the offsets of the nodes they refer to. *)
+Theorem c05_pptt_model_handles :
+  forall md ctor pre o post r,
+    ts_image pptt_spec ctor (pre ++ o :: post) = Some r -> N.of_nat (length r) < 2 ^ 32 ->
+    exists s0 s s1 s' h found,
+      pptt_new ctor = Some s0 /\ run_adds pptt_addition md s0 pre = Some s /\
+      add_step pptt_addition md s o = Some (s1, [EvNum h]) /\ run_adds pptt_addition md s1 post = Some s' /\
+      tbl_image s' = r /\
+      walk (S (length (tbl_image s'))) H_u8_u8 36 (skipn 36 (tbl_image s')) = Some found /\
+      length found = length (pre ++ o :: post) /\
+      exists ty off len, nth_error found (length pre) = Some (ty, off, len) /\
+        h = if ts_returns pptt_spec o then N.of_nat off else 0.
+Proof. exact pptt_model_handles. Qed.
+
+Theorem c05_rhct_model_handles :
+  forall md ctor pre o post r,
+    ts_image rhct_spec ctor (pre ++ o :: post) = Some r -> N.of_nat (length r) < 2 ^ 32 ->
+    exists s0 s s1 s' h found,
+      rhct_new ctor = Some s0 /\ run_adds rhct_addition md s0 pre = Some s /\
+      add_step rhct_addition md s o = Some (s1, [EvNum h]) /\ run_adds rhct_addition md s1 post = Some s' /\
+      tbl_image s' = r /\
+      walk (S (length (tbl_image s'))) H_u16_u16 56 (skipn 56 (tbl_image s')) = Some found /\
+      length found = length (pre ++ o :: post) /\
+      exists ty off len, nth_error found (length pre) = Some (ty, off, len) /\
+        h = if ts_returns rhct_spec o then N.of_nat off else 0.
+Proof. exact rhct_model_handles. Qed.
+
+Theorem c05_rimt_model_handles :
+  forall md ctor pre o post r,
+    ts_image rimt_spec ctor (pre ++ o :: post) = Some r -> N.of_nat (length r) < 2 ^ 32 ->
+    exists s0 s s1 s' h found,
+      rimt_new ctor = Some s0 /\ run_adds rimt_addition md s0 pre = Some s /\
+      add_step rimt_addition md s o = Some (s1, [EvNum h]) /\ run_adds rimt_addition md s1 post = Some s' /\
+      tbl_image s' = r /\
+      walk (S (length (tbl_image s'))) H_u8_x_u16 48 (skipn 48 (tbl_image s')) = Some found /\
+      length found = length (pre ++ o :: post) /\
+      exists ty off len, nth_error found (length pre) = Some (ty, off, len) /\
+        h = if ts_returns rimt_spec o then N.of_nat off else 0.
+Proof. exact rimt_model_handles. Qed.
+
+Theorem c05_viot_model_handles :
+  forall md ctor pre o post r,
+    ts_image viot_spec ctor (pre ++ o :: post) = Some r ->
+    exists s0 s s1 s' h found,
+      viot_new ctor = Some s0 /\ run_adds viot_addition md s0 pre = Some s /\
+      add_step viot_addition md s o = Some (s1, [EvNum h]) /\ run_adds viot_addition md s1 post = Some s' /\
+      tbl_image s' = r /\
+      walk (S (length (tbl_image s'))) H_u8_x_u16 48 (skipn 48 (tbl_image s')) = Some found /\
+      length found = length (pre ++ o :: post) /\
+      exists ty off len, nth_error found (length pre) = Some (ty, off, len) /\
+        h = if ts_returns viot_spec o then N.of_nat off else 0.
+Proof. exact viot_model_handles. Qed.
+
+Theorem c05_pptt_model_fields :
+  forall md ctor pre o post r,
+    ts_image pptt_spec ctor (pre ++ o :: post) = Some r -> N.of_nat (length r) < 2 ^ 32 ->
+    exists s0 s', pptt_new ctor = Some s0 /\ run_adds pptt_addition md s0 (pre ++ o :: post) = Some s' /\
+                  c05_pptt_refs (tbl_image s') pre o.
+Proof. exact pptt_model_fields. Qed.
+
+Theorem c05_rhct_model_fields :
+  forall md ctor pre o post r,
+    ts_image rhct_spec ctor (pre ++ o :: post) = Some r -> N.of_nat (length r) < 2 ^ 32 ->
+    exists s0 s', rhct_new ctor = Some s0 /\ run_adds rhct_addition md s0 (pre ++ o :: post) = Some s' /\
+                  c05_rhct_refs (tbl_image s') pre o.
+Proof. exact rhct_model_fields. Qed.
+
+Theorem c05_rimt_model_fields :
+  forall md ctor pre o post r,
+    ts_image rimt_spec ctor (pre ++ o :: post) = Some r -> N.of_nat (length r) < 2 ^ 32 ->
+    exists s0 s', rimt_new ctor = Some s0 /\ run_adds rimt_addition md s0 (pre ++ o :: post) = Some s' /\
+                  c05_rimt_refs (tbl_image s') pre o.
+Proof. exact rimt_model_fields. Qed.
+
+Theorem c05_viot_model_fields :
+  forall md ctor pre o post r,
+    ts_image viot_spec ctor (pre ++ o :: post) = Some r ->
+    exists s0 s', viot_new ctor = Some s0 /\ run_adds viot_addition md s0 (pre ++ o :: post) = Some s' /\
+                  c05_viot_refs (tbl_image s') pre o.
+Proof. exact viot_model_fields. Qed.
+
+(* ---------------------------------------------------------------------------------------------------------------------------
+   Non-vacuity: for each table a concrete history of four operations whose LAST operation refers to earlier nodes (a "late
+   reference": nodes are added between the referenced node and the reference).  Each example shows that the history is in
+   the domain (so the hypotheses of the theorems above are met), what the walk finds, what the reference fields hold, and
+   the numbers the model reports (by vm_compute). *)
+Definition c05_ctor3 : sx := SL [SL (map SA [65; 66; 67; 68; 69; 70]); SL (map SA [1; 2; 3; 4; 5; 6; 7; 8]); SA 1].
+Definition c05_ctor4 : sx := SL [SL (map SA [65; 66; 67; 68; 69; 70]); SL (map SA [1; 2; 3; 4; 5; 6; 7; 8]); SA 1; SA 10000000].
+
+Definition c05_starts (h : ehdr) (first : nat) (r : list N) : option (list (N * nat)) :=
+  option_map (map (fun x : N * nat * nat => match x with (t, o, _) => (t, o) end)) (walk (S (length r)) h first (skipn first r)).
+
+(* PPTT: L2 cache; package; L1 cache whose next level is the L2; core with parent = package and private resources L1, L2 *)
+Definition c05_pptt_hist : list sx :=
+  [ SL [SA 2; SL [SL [SA 1; SA 4096]]];
+    SL [SA 1; SL []; SA 0; SL [SL [SA 1]]];
+    SL [SA 2; SL [SL [SA 9; SL [SA 104; SA 0]]]];
+    SL [SA 1; SL [SA 104; SA 1]; SA 7; SL [SL [SA 6; SL [SA 104; SA 2]]; SL [SA 6; SL [SA 104; SA 0]]]] ].
+
+Example c05_pptt_nonvacuous :
+  exists r, ts_image pptt_spec c05_ctor3 c05_pptt_hist = Some r /\ N.of_nat (length r) < 2 ^ 32 /\
+    c05_starts H_u8_u8 36 r = Some [(1, 36%nat); (0, 64%nat); (1, 84%nat); (0, 112%nat)] /\
+    field_at r (84 + 8) 4 = 36 /\                                    (* L1.next_level = offset of the L2 *)
+    field_at r (112 + 8) 4 = 64 /\                                   (* core.parent = offset of the package *)
+    field_at r (112 + 20) 4 = 84 /\ field_at r (112 + 24) 4 = 36 /\  (* core.private_resources = [L1; L2] *)
+    pptt_case Checked (SL (c05_ctor3 :: c05_pptt_hist ++ [SA 1])) = [EvNum 36; EvNum 64; EvNum 84; EvNum 112; EvBytes r] /\
+    pptt_case Wrapping (SL (c05_ctor3 :: c05_pptt_hist ++ [SA 1])) = [EvNum 36; EvNum 64; EvNum 84; EvNum 112; EvBytes r].
+Proof. eexists. split; [vm_compute; reflexivity|]. vm_compute. repeat split; reflexivity. Qed.
+
+(* RHCT: ISA string; CMO node; MMU node; hart info referring to the ISA string and the CMO node *)
+Definition c05_rhct_hist : list sx :=
+  [ SL [SA 1; SL (map SA [114; 118; 54; 52])]; SL [SA 3; SA 6; SA 6; SA 6]; SL [SA 2; SA 1];
+    SL [SA 4; SA 0; SL [SA 104; SA 0]; SL [SL [SA 104; SA 1]]] ].
+
+Example c05_rhct_nonvacuous :
+  exists r, ts_image rhct_spec c05_ctor4 c05_rhct_hist = Some r /\ N.of_nat (length r) < 2 ^ 32 /\
+    c05_starts H_u16_u16 56 r = Some [(0, 56%nat); (1, 70%nat); (2, 80%nat); (65535, 88%nat)] /\
+    field_at r (88 + 12) 4 = 56 /\ field_at r (88 + 16) 4 = 70 /\
+    rhct_case Checked (SL (c05_ctor4 :: c05_rhct_hist ++ [SA 1])) = [EvNum 56; EvNum 70; EvNum 0; EvNum 0; EvBytes r] /\
+    rhct_case Wrapping (SL (c05_ctor4 :: c05_rhct_hist ++ [SA 1])) = [EvNum 56; EvNum 70; EvNum 0; EvNum 0; EvBytes r].
+Proof. eexists. split; [vm_compute; reflexivity|]. vm_compute. repeat split; reflexivity. Qed.
+
+(* RIMT: IOMMU; platform device; second IOMMU; PCIe root complex with two ID mappings, to the second and to the first IOMMU *)
+Definition c05_rimt_map (k : N) : sx := SL [SA 0; SA 0; SA 16; SL [SA 104; SA k]; SA 0; SA 0; SA 0].
+Definition c05_rimt_hist : list sx :=
+  [ SL [SA 1; SA 5; SL []; SL []; SL []; SL []]; SL [SA 3; SA 1; SL (map SA [65; 66]); SL []];
+    SL [SA 1; SA 6; SL []; SL []; SL []; SL []];
+    SL [SA 2; SA 9; SA 0; SA 1; SA 0; SL [SL [c05_rimt_map 2; c05_rimt_map 0]]] ].
+
+Example c05_rimt_nonvacuous :
+  exists r, ts_image rimt_spec c05_ctor3 c05_rimt_hist = Some r /\ N.of_nat (length r) < 2 ^ 32 /\
+    c05_starts H_u8_x_u16 48 r = Some [(0, 48%nat); (2, 80%nat); (0, 95%nat); (1, 127%nat)] /\
+    rimt_map_args (nth 3 c05_rimt_hist (SA 0)) = Some (16%nat, [c05_rimt_map 2; c05_rimt_map 0]) /\
+    field_at r (127 + 16 + 20 * 0 + 12) 4 = 95 /\ field_at r (127 + 16 + 20 * 1 + 12) 4 = 48 /\
+    rimt_case Checked (SL (c05_ctor3 :: c05_rimt_hist ++ [SA 1])) = [EvNum 48; EvNum 0; EvNum 95; EvNum 0; EvBytes r] /\
+    rimt_case Wrapping (SL (c05_ctor3 :: c05_rimt_hist ++ [SA 1])) = [EvNum 48; EvNum 0; EvNum 95; EvNum 0; EvBytes r].
+Proof. eexists. split; [vm_compute; reflexivity|]. vm_compute. repeat split; reflexivity. Qed.
+
+(* VIOT: virtio-mmio IOMMU; virtio-pci IOMMU; MMIO endpoint -> the first; PCI range -> the second *)
+Definition c05_viot_hist : list sx :=
+  [ SL [SA 4; SA 4096]; SL [SA 3; SL [SA 0; SA 0; SA 1; SA 0]]; SL [SA 2; SA 7; SA 8192; SL [SA 104; SA 0]];
+    SL [SA 1; SL [SA 0; SA 0; SA 2; SA 0]; SL [SA 0; SA 0; SA 3; SA 0]; SL [SA 104; SA 1]] ].
+
+Example c05_viot_nonvacuous :
+  exists r, ts_image viot_spec c05_ctor3 c05_viot_hist = Some r /\
+    c05_starts H_u8_x_u16 48 r = Some [(4, 48%nat); (3, 64%nat); (2, 80%nat); (1, 104%nat)] /\
+    field_at r (80 + 16) 2 = 48 /\ field_at r (104 + 16) 2 = 64 /\
+    viot_case Checked (SL (c05_ctor3 :: c05_viot_hist ++ [SA 1])) = [EvNum 48; EvNum 64; EvNum 0; EvNum 0; EvBytes r] /\
+    viot_case Wrapping (SL (c05_ctor3 :: c05_viot_hist ++ [SA 1])) = [EvNum 48; EvNum 64; EvNum 0; EvNum 0; EvBytes r].
+Proof. eexists. split; [vm_compute; reflexivity|]. vm_compute. repeat split; reflexivity. Qed.
+
+(* the theorems applied to the examples: the reference-field statement instantiated at the last operation of each history *)
+Example c05_pptt_fields_instance :
+  exists r, ts_image pptt_spec c05_ctor3 c05_pptt_hist = Some r /\ c05_pptt_refs r (firstn 3 c05_pptt_hist) (nth 3 c05_pptt_hist (SA 0)).
+Proof.
+  destruct c05_pptt_nonvacuous as (r & H & Hfit & _). exists r. split; [exact H|].
+  exact (c05_pptt_reference_fields c05_ctor3 (firstn 3 c05_pptt_hist) (nth 3 c05_pptt_hist (SA 0)) [] r H Hfit).
+Qed.
+
+Example c05_viot_handles_instance :
+  exists s0 s s1 s' found,
+    viot_new c05_ctor3 = Some s0 /\ run_adds viot_addition Wrapping s0 (firstn 1 c05_viot_hist) = Some s /\
+    add_step viot_addition Wrapping s (nth 1 c05_viot_hist (SA 0)) = Some (s1, [EvNum 64]) /\
+    run_adds viot_addition Wrapping s1 (skipn 2 c05_viot_hist) = Some s' /\
+    walk (S (length (tbl_image s'))) H_u8_x_u16 48 (skipn 48 (tbl_image s')) = Some found /\
+    exists ty len, nth_error found 1 = Some (ty, 64%nat, len).
+Proof.
+  destruct c05_viot_nonvacuous as (r & H & Hst & _).
+  destruct (c05_viot_model_handles Wrapping c05_ctor3 (firstn 1 c05_viot_hist) (nth 1 c05_viot_hist (SA 0)) (skipn 2 c05_viot_hist) r H)
+    as (s0 & s & s1 & s' & h & found & Hn & Hp & Ha & Hq & Hi & Hw & Hl & ty & off & len & Hnth & Hh).
+  assert (Hoff : off = 64%nat).
+  { unfold c05_starts in Hst. rewrite <- Hi, Hw in Hst. cbn [option_map] in Hst. injection Hst as Hst.
+    apply (f_equal (fun l => nth_error l 1)) in Hst. rewrite nth_error_map in Hst. cbn [length firstn c05_viot_hist] in Hnth. rewrite Hnth in Hst.
+    cbn [option_map nth_error] in Hst. congruence. }
+  subst off. cbn [ts_returns viot_spec nth c05_viot_hist] in Hh. subst h.
+  exists s0, s, s1, s', found. repeat split; try assumption. exists ty, len. exact Hnth.
+Qed.
+
+Print Assumptions c05_pptt_reference_tiles.
+Print Assumptions c05_pptt_reference_handles.
+Print Assumptions c05_pptt_reference_handles_ok.
+Print Assumptions c05_rhct_reference_handles.
+Print Assumptions c05_rimt_reference_handles.
+Print Assumptions c05_viot_reference_handles.
+Print Assumptions c05_pptt_reference_fields.
+Print Assumptions c05_rhct_reference_fields.
+Print Assumptions c05_rimt_reference_fields.
+Print Assumptions c05_viot_reference_fields.
+Print Assumptions c05_pptt_model_handles.
+Print Assumptions c05_rhct_model_handles.
+Print Assumptions c05_rimt_model_handles.
+Print Assumptions c05_viot_model_handles.
+Print Assumptions c05_pptt_model_fields.
+Print Assumptions c05_rhct_model_fields.
+Print Assumptions c05_rimt_model_fields.
+Print Assumptions c05_viot_model_fields.
